@@ -1,6 +1,6 @@
 (* C08 — no decoder panics. Property theorems only.
    Models (coq/Parsers) are transliterations of the header parsers of /repo as fixed after
-   findings F36-F46; every slice index, integer division and make() of the Go code is an explicit
+   findings F36-F47; every slice index, integer division and make() of the Go code is an explicit
    check in the model that yields Panic when it fails. `bytes bs`: every element of the input list
    is a byte. The theorems hold for ALL byte strings (and, for RLE, all uint16 frame descriptions).
    Not covered by theorems (searched by harness/suites/parsers only): the entropy decoders and
